@@ -1,0 +1,22 @@
+//go:build verif
+// +build verif
+
+package compress
+
+import "sync/atomic"
+
+// VerifOnCompress is called for every compress operation (build tag `verif`)
+var verifOnCompress atomic.Value
+
+// VerifInstall install the callback: encoding name and level used
+func VerifInstall(fn func(encoding string, level int)) {
+	verifOnCompress.Store(fn)
+}
+
+func verifCount(name string, srv *compressSrv) {
+	fn, _ := verifOnCompress.Load().(func(encoding string, level int))
+	if fn == nil {
+		return
+	}
+	fn(name, srv.GetLevel(name))
+}
